@@ -110,7 +110,7 @@ def _readahead_explanation(obs):
   cand = sorted(set(i for r in obs['reads_at_cut'] for i in r) & set(per))
   want = obs['res']
   keys = [k for k in obs['ref_res'] if _kind(k)]
-  if not keys or len(cand) > 9:
+  if not keys or len(cand) > 14:
     return None
   early = [k for k in keys if "'e_" in k]
   late = [k for k in keys if "'e_" not in k]
@@ -140,16 +140,26 @@ def _readahead_explanation(obs):
         return False
     return True
 
-  for n in range(0, len(cand) + 1):
-    for s_late in itertools.combinations(cand, n):
-      if not matches(late, set(s_late)):
-        continue
-      for m in range(0, len(s_late) + 1):
-        for s_early in itertools.combinations(s_late, m):
-          if matches(early, set(s_early)):
-            if s_late:
-              return {'after_first_stage': list(s_late),
-                      'before_first_stage': list(s_early)}
+  def solutions(ks):
+    out = []
+    for n in range(0, len(cand) + 1):
+      for sub in itertools.combinations(cand, n):
+        if matches(ks, set(sub)):
+          out.append(set(sub))
+      if out and n >= max(len(x) for x in out) + 1:
+        break
+    return out
+
+  # the early and the later aggregates are explained independently, then a
+  # nested pair is looked for (lost before the first stage => lost after it)
+  late_sols = solutions(late) if late else [set()]
+  early_sols = solutions(early) if early else [set()]
+  for s_late in late_sols:
+    for s_early in early_sols:
+      if s_early <= s_late or not late:
+        if s_late or s_early:
+          return {'after_first_stage': sorted(s_late | s_early),
+                  'before_first_stage': sorted(s_early)}
   return None
 
 
